@@ -3,7 +3,7 @@
 // It reads the line protocol of lean/Verif/C10/Driver.lean from stdin and answers every
 // line with the canonicalised result of the real code:
 //
-//	glob  -> path/filepath.Match
+//	glob  -> path/filepath.Match (error discarded, as the callers in /repo do)
 //	lower -> strings.ToLower
 //	pd    -> analysis/lint.ParseDirectives on a one-declaration file carrying the comment
 //	sup   -> lintcmd.parseDirectives + (line|file)Ignore.match   (via verif hook)
@@ -195,10 +195,8 @@ func step(line string) (string, error) {
 		if err != nil {
 			return "", err
 		}
-		m, merr := filepath.Match(p, n)
-		if merr != nil {
-			return "err", nil
-		}
+		// as lineIgnore.match / fileIgnore.match / unused do: the error (ErrBadPattern) is discarded
+		m, _ := filepath.Match(p, n)
 		return b2s(m), nil
 	case "lower":
 		s, err := t.str()
